@@ -156,6 +156,12 @@ def _check_main(ctx, rep: Report):
         if first_spec is None or first_spec > lw.lineno:
             bad.append("bootstrap is not triggered before taking the lock")
         for x in ast.walk(w):
+            if isinstance(x, ast.Call) and ast.unparse(x.func) == "getattr" and len(x.args) >= 2 and isinstance(x.args[1], ast.Constant) \
+                    and x.args[1].value == "__spec_classes_new_wrapper__":
+                src_ = ast.unparse(x.args[0])
+                if not (src_.startswith("spec_cls.") or src_.startswith("spec_cls[")):
+                    bad.append(f"the wrapper looks for its marker on `{src_}` instead of the decorated class's own `spec_cls.__new__`: reached through a subclass that defines __new__, it never removes itself and calls itself again (RecursionError on first use of the lazy class only)")
+        for x in ast.walk(w):
             if isinstance(x, ast.Compare) and "object.__new__" in ast.unparse(x):
                 other = [s for s in [x.left] + list(x.comparators) if ast.unparse(s) != "object.__new__"]
                 for s in other:
